@@ -236,6 +236,9 @@ void check_C05(Src &s, Ctx &ctx) {
         // affine functions: wavelets and local polynomials of order != 0 on rules that include the boundary. A direction carries a slope only
         // if the grid can represent it: localp / semi-localp need the two level-1 nodes (root of the other directions, +-1 in this one).
         if (pwc) why_not = "order0"; else if (sp.family == F_LOCALP && sp.rule == rule_localp0) why_not = "zero-boundary";
+        // DESIGN 2.9: a local polynomial grid interpolates (hence reproduces its span) only if every loaded point has all of its parents loaded; selective
+        // refinement may add a child of one parent only (seen: semi-localp (1,-1,-1/2) without (1,-1,1): the surplus of an affine function is then not 0)
+        else if (sp.family == F_LOCALP && !parent_complete(st)) why_not = "incomplete-hierarchy";
         else {
             std::set<Coord> have; for (int i = 0; i < n; i++) have.insert(coord_of(&PA[(size_t)i * (size_t)d], d));
             std::vector<double> slope((size_t)d, 0.0); int nslope = 0;
